@@ -22,10 +22,12 @@ if [ ! -f "$GRPCDIR/.complete" ]; then
 fi
 cp go.mod "$OUT/go.mod"; cp go.sum "$OUT/go.sum"
 echo "replace google.golang.org/grpc => $GRPCDIR" >> "$OUT/go.mod"
-bin/vrewrite -repo "$REPO" -out "$OUT/ov" -export .=$ROOT/overlay/plugin_export.go.src -durable "$GRPCDIR" -replace "$GRPCDIR/internal/grpcrand/grpcrand.go=$ROOT/overlay/grpcrand.go.src"
+bin/vrewrite -repo "$REPO" -out "$OUT/ov" -export .=$ROOT/overlay/plugin_export.go.src -durable "$GRPCDIR" -replace "$GRPCDIR/internal/grpcrand/grpcrand.go=$ROOT/overlay/grpcrand.go.src" -plain "$OUT/ov/plain.json"
 go1.26 test -c -vet=off -modfile="$OUT/go.mod" -overlay "$OUT/ov/overlay.json" -o "$OUT/worker.test" ./scen/
 # E3: real-process cells run uninstrumented against the working tree
-go1.26 build -o "$OUT/vplugin" ./cmd/vplugin
-go1.26 test -c -vet=off -o "$OUT/e3.test" ./e3/
+PLAIN=()
+if [ "$REPO" != /repo ]; then PLAIN=(-overlay "$OUT/ov/plain.json"); fi
+go1.26 build "${PLAIN[@]}" -o "$OUT/vplugin" ./cmd/vplugin
+go1.26 test "${PLAIN[@]}" -c -vet=off -o "$OUT/e3.test" ./e3/
 # R: the race pass (free-running bodies under the race detector, uninstrumented)
-go1.26 test -race -c -vet=off -o "$OUT/race.test" ./race/
+go1.26 test "${PLAIN[@]}" -race -c -vet=off -o "$OUT/race.test" ./race/
